@@ -209,7 +209,10 @@ def run_laws(ctx, p):
         a, b = np.linalg.det(DP), np.linalg.det(DQ)
         scale = np.prod([np.linalg.norm(DP[:, i]) for i in range(d)])
         if abs(a) > 1e-3 * scale:       # well-conditioned frame only
-            ctx.judge('laws', abs(a - b) <= 1e-6 * abs(a), dict(sig, kind='handedness'),
+            # (each transformed difference vector carries the rounding of the transformed points, a few eps of the data magnitude:
+            #  relative to a short difference vector far from the origin that is not small)
+            slack = sum(8 * np.finfo(float).eps * magnitude(P, Q, tA) / np.linalg.norm(DP[:, i]) for i in range(d))
+            ctx.judge('laws', a * b > 0 and abs(a - b) <= (1e-6 + slack) * abs(a), dict(sig, kind='handedness'),
                       lambda: 'orientation (signed volume) changes from %g to %g under %s' % (a, b, cname))
     ctx.cell('laws', cname)
     ctx.nontrivial('laws', cname, np.round(A, 6).tolist(), np.round(B, 6).tolist())
